@@ -7,6 +7,7 @@
 From BP Require Import Base.Prelude Model.Types Model.Varint Model.Float Model.Object Model.Encode Model.Decode.
 From BP Require Import Model.WellFormed Model.C17Typed Model.C17Wire Model.C17Step Spec.Varint.
 From BP Require Import Proofs.C17FieldP Proofs.C17TotalP Proofs.C17FloatP Proofs.C17MainP.
+From BP Require Import Proofs.C17ComposeP Proofs.C17Main2P.
 
 (* ---- termination: the fuel parse supplies (length of the input + 1) is never exhausted:
         every recursive call (nested message, map entry, Timestamp / Duration / wrapper, nested
@@ -115,6 +116,37 @@ Theorem C17_group : forall sc o nw r,
   wrec nw r -> tag_wt nw = 3 -> parse_into sc o r = Ok (add_unknown (mark_on_wire o) r).
 Proof. exact group_isolated. Qed.
 Print Assumptions C17_group.
+
+(* ---- the same two, in the middle of any stream: parsing is compositional over complete records
+        (m.parse(pre ++ rest) = m.parse(pre).parse(rest)), so a mismatching record or a group found
+        after the complete records [pre] and before any [post] is exactly "append r to _unknown_fields" ---- *)
+Theorem C17_parse_compositional : forall sc o pre rest,
+  wrecs pre ->
+  parse_into sc o (pre ++ rest) = (do o1 <- parse_into sc o pre; parse_into sc o1 rest).
+Proof. exact parse_into_app. Qed.
+Print Assumptions C17_parse_compositional.
+
+Theorem C17_mismatch_in_stream : forall sc o pre nw r post i f,
+  wrecs pre -> wrec nw r ->
+  field_by_number (get_class sc (ocls o)) (tag_num nw) = Some (i, f) ->
+  wire_type_fits f (tag_wt nw) = false ->
+  parse_into sc o (pre ++ r ++ post) =
+  (do o1 <- parse_into sc o pre; parse_into sc (add_unknown o1 r) post).
+Proof. exact mismatch_in_stream. Qed.
+Print Assumptions C17_mismatch_in_stream.
+
+Theorem C17_group_in_stream : forall sc o pre nw r post,
+  wrecs pre -> wrec nw r -> tag_wt nw = 3 ->
+  parse_into sc o (pre ++ r ++ post) =
+  (do o1 <- parse_into sc o pre; parse_into sc (add_unknown o1 r) post).
+Proof. exact group_in_stream. Qed.
+Print Assumptions C17_group_in_stream.
+
+(* the result of Message.load does not depend on the fuel once it exceeds the length of the input *)
+Theorem C17_load_fuel_irrelevant : forall sc f1 f2 o s size,
+  (length s < f1)%nat -> (length s < f2)%nat -> load f1 sc o s size = load f2 sc o s size.
+Proof. exact load_fuel_irrelevant. Qed.
+Print Assumptions C17_load_fuel_irrelevant.
 
 (* ---- the reader against the record specification ---- *)
 (* whatever _load_field accepts is a complete payload, consumed exactly, and raw = the bytes read *)
@@ -239,6 +271,15 @@ Example C17_mismatch_nonvacuous :
   Ok (Obj 11 [PPlaceholder; PPlaceholder; PPlaceholder; PNone; PPlaceholder; PPlaceholder; PPlaceholder;
               PPlaceholder; PPlaceholder; PPlaceholder; PPlaceholder] true [x0a; x02; x01; x02] [None]).
 Proof. vm_compute. split; [discriminate | reflexivity]. Qed.
+
+
+(* the mismatching record and the group in the middle of a stream: x = 5, then the two foreign records, then s = "A" *)
+Example C17_in_stream_nonvacuous :
+  parse ex_sc 11 ([x08; x05] ++ [x0a; x02; x01; x02] ++ [x0b; x08; x09; x13; x14; x0c] ++ [x12; x01; x41]) =
+  Ok (Obj 11 [PInt 5; PStr [x41]; PPlaceholder; PNone; PPlaceholder; PPlaceholder; PPlaceholder;
+              PPlaceholder; PPlaceholder; PPlaceholder; PPlaceholder] true
+          ([x0a; x02; x01; x02] ++ [x0b; x08; x09; x13; x14; x0c]) [None]).
+Proof. vm_compute. reflexivity. Qed.
 
 (* the decoder's range for uint64 is tight: a ten-byte varint carries 70 bits and is not masked *)
 Example C17_uint64_wide_witness :
